@@ -99,28 +99,26 @@ def merge_adds_clones(prog, rep, S, rule="ALIAS-4"):
                    "path (never the source child itself), the append sits in the branch where self.contains(child) found "
                    "nothing, and the loop body has no other way out (every source child is either merged into its "
                    "counterpart or cloned)")
+    from ..symtext import effect_calls
     f = prog.func("section.BaseSection.merge")
     g = S.cfg(f)
-    appends = []
-    for node in g.nodes:
-        for r in node.expr_roots():
-            for c in calls_in(r):
-                if call_name(c) in ("%s.append" % f.params[0], "%s.insert" % f.params[0], "%s.extend" % f.params[0]) \
-                        or (isinstance(c.func, ast.Attribute) and c.func.attr in ("append", "insert", "extend")
-                            and unparse(c.func.value).startswith(f.params[0] + "._")):
-                    appends.append((node, c))
+    me = f.params[0]
+    # adds to the destination, read through the private helpers merge calls (their `self` is merge's self)
+    appends = [e for e in effect_calls(prog, f, lambda c: isinstance(c.func, ast.Attribute) and c.func.attr in ("append", "insert", "extend"))
+               if unparse(e.call.func.value) == me or unparse(e.call.func.value).startswith(me + "._")]
     rep.floor(rule, len(appends), 1, "append sites in BaseSection.merge")
-    for node, c in appends:
+    for e in appends:
+        c = e.raw
         arg = c.args[-1]
-        org = S.origin(arg, f, node)
+        org = S.origin(arg, e.func, e.inner)
         good = bool(org) and all(o[0] == "FRESH" for o in org)
         rep.check(good, rule, "merge: %s" % unparse(c)[:40], "argument is a fresh clone",
-                  "the object added to the destination is not (only) a fresh clone: origin %s" % sorted(org), where(f, c),
+                  "the object added to the destination is not (only) a fresh clone: origin %s" % sorted(org), where(e.func, c),
                   witness="after dest.merge(src) editing a child of dest changes src (or src's child changed parent)")
-        conds = [(unparse(t), pol) for t, pol, _ in g.dominating_conditions(node)]
-        sel_ok = any(("is not None" in t and pol == "false") or ("is None" in t and "not" not in t and pol == "true") for t, pol in conds)
-        rep.check(sel_ok, rule, "merge: append only for children without counterpart", str(conds[-2:]),
-                  "the clone is appended although a counterpart may exist (guards: %s)" % conds, where(f, c),
+        atoms = e.guards()
+        sel_ok = any(t0.endswith(" is None") and p0 for t0, p0 in atoms)
+        rep.check(sel_ok, rule, "merge: append only for children without counterpart", str(atoms[-2:]),
+                  "the clone is appended although a counterpart may exist (guards: %s)" % atoms, where(e.func, c),
                   witness="a child the destination already has is added a second time / refused with KeyError")
     loops = [n for n in walk_no_nested(f.node) if isinstance(n, ast.For)]
     rep.check(len(loops) == 1, rule, "merge: one loop over the source children", "ok", "expected exactly one loop over the source", f.where)
